@@ -689,7 +689,16 @@ func c18RunChild(ctx *simrt.Ctx, ncpu int) *simrt.Violation {
 	line, err := ch.out.ReadBytes('\n')
 	if err != nil {
 		delete(children, ncpu)
-		simrt.Failf("C18 child (ncpu=%d): read: %v\n%s", ncpu, err, tail(ch.errb.String(), 2000))
+		if ch.cmd != nil {
+			_ = ch.cmd.Wait() // stderr is complete once the process is gone
+		}
+		et := ch.errb.String()
+		if i := strings.Index(et, "panic:"); i >= 0 && strings.Contains(et[i:], "chain33/common/merkle") {
+			// the child process died inside the root computation: an unrecovered panic
+			// in one of its goroutines (not a harness fault)
+			return ctx.Violate("root-computation-crash", "common/merkle", "[child with %d CPUs] the process computing the roots of this scenario died: %s", ch.have, tail(et[i:], 1800))
+		}
+		simrt.Failf("C18 child (ncpu=%d): read: %v\n%s", ncpu, err, tail(et, 2000))
 	}
 	var rep childReply
 	simrt.Must(json.Unmarshal(line, &rep), "child reply")
